@@ -632,6 +632,12 @@ func sessionChargingReservation(
 					continue
 				}
 
+				if acctDebitRsp.MultipleServicesCreditControl == nil ||
+					acctDebitRsp.MultipleServicesCreditControl.GrantedServiceUnit == nil {
+					logger.ChargingdataPostLog.Errorf("Account debit answer for rating group %d grants nothing", rg)
+					continue
+				}
+
 				ue.ReservedQuota[rg] += int64(acctDebitRsp.MultipleServicesCreditControl.GrantedServiceUnit.CCTotalOctets)
 
 				// Deduct the reserved quota from the account
